@@ -76,9 +76,10 @@ var propAnchorFiles = map[string][]string{
 var propExtraFiles = map[string][]string{
 	"C02": {"cmd/car/lib/verify.go"},                                                   // `car verify` is the command-line scanning reader
 	"C10": {"cmd/car/index.go"},                                                        // `car index` is the command-line wrap (and its --version 1 the extraction)
-	"C03": {"v2/internal/store/resume.go"},                                             // Resume rebuilds the index from the payload: the third index-building walk
+	"C03": {"v2/internal/store/resume.go", "v2/writer.go"},                             // Resume rebuilds the index from the payload: the third index-building walk
 	"C09": {"v2/blockstore/readonly.go", "v2/storage/storage.go"},                      // the open paths hand the caller's limits to the parsers
 	"C14": {"v2/index_gen.go"},                                                         // the offsets BlockReader reports are stated to agree with the ones index generation records
+	"C11": {"v2/index_gen.go"},                                                         // the regenerated index is held against the serialized one
 	"C13": {"v2/car.go"},                                                               // Inspect relies on the header validation of Header.ReadFrom
 	"C12": {"v2/internal/io/offset_write_seeker.go", "v2/internal/carv1/util/util.go"}, // what a resumed session writes goes through these
 }
@@ -112,6 +113,7 @@ var pitfallWhy = map[string]string{
 	"context-mismatch":          "a select case that fires on one context's Done() returns another context's Err(): when only the first one is cancelled the function stops and returns nil",
 	"flag-presence-for-value":   "cli.Context.IsSet is used where the pinned tree reads the flag's value: `--flag=false` counts as set, and a default that is true counts as unset",
 	"big-endian":                "binary.BigEndian in a repository whose formats (CARv2 header, characteristics, index records and counts) are little-endian throughout: the bytes written or reported are reversed",
+	"map-presence-by-value":     "whether a key is in a map is decided from the value looked up (its length, nil-ness or zero-ness) instead of the comma-ok result: a key that is present with an empty value — the block of an empty file, an empty list of offsets — counts as absent",
 	"unverified-scan":           "BlockReader.SkipNext is the scan that does not hash: a caller the pinned tree does not have reads CIDs it never checks against the bytes",
 	"dynamic-type-fast-path":    "a type assertion on a parameter selects a different path by dynamic type: the fast path and the general path must agree on ownership of buffers, on position and on errors, and nothing checks that they do",
 }
@@ -605,7 +607,7 @@ func ssaPitfalls(c *Ctx) []pitfall {
 						addS("deferred-error-dropped", calleeName(c, x.Common()), x.Pos(), "defer "+calleeName(c, x.Common()))
 					}
 				case *ssa.MapUpdate:
-					if p := rootsAtParam(x.Map, 0); p != nil {
+					if p := rootsAtParam(x.Map, 0); p != nil && !scratchMapParam(c, p) {
 						add("parameter-map-mutated", x.Pos(), p.Name()+"[...] = ...")
 					}
 				case *ssa.BinOp:
@@ -643,6 +645,10 @@ func ssaPitfalls(c *Ctx) []pitfall {
 								}
 							}
 						}
+					}
+				case *ssa.Lookup:
+					if mt, isMap := x.X.Type().Underlying().(*types.Map); isMap && !x.CommaOk && valueTestedForZero(x) {
+						addS("map-presence-by-value", types.TypeString(mt, func(p *types.Package) string { return p.Name() }), x.Pos(), "m[k] tested for emptiness instead of `v, ok := m[k]`")
 					}
 				case *ssa.TypeAssert:
 					if x.CommaOk && !types.Identical(x.AssertedType, x.X.Type()) && liveBlocks(g)[x.Block()] {
@@ -702,6 +708,107 @@ func valueUsed(v ssa.Value) bool {
 
 // rootsAtParam: v is a parameter of its function (not a free variable), possibly re-sliced, loaded
 // from the cell the parameter was spilled to, or merged with values derived from it.
+// valueTestedForZero: the value is compared with a constant (nil, 0, ""), or its len/cap is.
+func valueTestedForZero(v ssa.Value) bool {
+	if v.Referrers() == nil {
+		return false
+	}
+	cmpConst := func(b *ssa.BinOp) bool {
+		switch b.Op {
+		case token.EQL, token.NEQ, token.GTR, token.LSS, token.GEQ, token.LEQ:
+		default:
+			return false
+		}
+		_, cx := b.X.(*ssa.Const)
+		_, cy := b.Y.(*ssa.Const)
+		return cx || cy
+	}
+	for _, ref := range *v.Referrers() {
+		switch x := ref.(type) {
+		case *ssa.BinOp:
+			if cmpConst(x) {
+				return true
+			}
+		case *ssa.Call:
+			if b, ok := x.Call.Value.(*ssa.Builtin); ok && (b.Name() == "len" || b.Name() == "cap") && x.Referrers() != nil {
+				for _, r2 := range *x.Referrers() {
+					if b2, ok := r2.(*ssa.BinOp); ok && cmpConst(b2) {
+						return true
+					}
+				}
+			}
+		}
+	}
+	return false
+}
+
+// scratchMapParam: the parameter of an unexported function to which every caller in the
+// repository passes a map it has just made itself — an accumulator handed down, not the caller's data.
+func scratchMapParam(c *Ctx, p *ssa.Parameter) bool {
+	fn := p.Parent()
+	if fn == nil || fn.Object() == nil || fn.Object().Exported() {
+		return false
+	}
+	idx := -1
+	for i, q := range fn.Params {
+		if q == p {
+			idx = i
+		}
+	}
+	if idx < 0 {
+		return false
+	}
+	c.ensureCG()
+	n := c.cg.Nodes[fn]
+	if n == nil || len(n.In) == 0 {
+		return false
+	}
+	for _, e := range n.In {
+		if e.Site == nil {
+			return false
+		}
+		cc := e.Site.Common()
+		if cc.IsInvoke() || cc.StaticCallee() != fn || idx >= len(cc.Args) {
+			return false
+		}
+		if !freshMap(cc.Args[idx], 0) {
+			return false
+		}
+	}
+	return true
+}
+
+func freshMap(v ssa.Value, depth int) bool {
+	if depth > 4 {
+		return false
+	}
+	switch x := v.(type) {
+	case *ssa.MakeMap:
+		return true
+	case *ssa.Phi:
+		for _, e := range x.Edges {
+			if !freshMap(e, depth+1) {
+				return false
+			}
+		}
+		return true
+	case *ssa.UnOp:
+		if al, ok := x.X.(*ssa.Alloc); ok && x.Op == token.MUL {
+			sts := storesTo(al)
+			if len(sts) == 0 {
+				return false
+			}
+			for _, st := range sts {
+				if !freshMap(st.Val, depth+1) {
+					return false
+				}
+			}
+			return true
+		}
+	}
+	return false
+}
+
 func rootsAtParam(v ssa.Value, depth int) *ssa.Parameter {
 	if depth > 6 {
 		return nil
@@ -1238,6 +1345,10 @@ func registerPitfallRules() {
 	for id, def := range registry {
 		rid := "R" + strings.TrimPrefix(id, "C") + "P"
 		def.Rules = append(def.Rules, RuleDef{ID: rid, Floor: 1, Doc: "no Go-level pitfall beyond those of the pinned tree in the functions the property's anchor files declare or reach: break that only leaves a switch, append or delete on a parameter, a failure tested and then lost, a result stored before its error is tested, a deferred error dropped, a limit compared after a signed conversion, a sentinel wrapped, a whole-struct comparison, a discarded pure result, a shadowed variable that takes the assignment meant for the outer one, a ranged slice reassigned in its loop, a fast path by dynamic type (baseline_pitfalls.txt)", Run: rulePitfalls})
+		gid := "R" + strings.TrimPrefix(id, "C") + "G"
+		def.Rules = append(def.Rules, RuleDef{ID: gid, Floor: 3, Doc: "no bound moved and no new rejection in the functions the property's anchor files declare or reach: every integer comparison that decides a branch, in canonical form (affine expression over stable atoms, split point), splits where the pinned tree splits (baseline_guards.txt), and no comparison of a quantity the function did not compare before returns an error of its own", Run: ruleGuards})
+		sid := "R" + strings.TrimPrefix(id, "C") + "S"
+		def.Rules = append(def.Rules, RuleDef{ID: sid, Floor: 1, Doc: "no necessary condition of another property is violated or undecided in a function this property's anchor files declare or reach: every function-keyed obligation of every other property's rules inside the reach is reported here too, with the rule and property it comes from (shared.go)", Run: ruleShared})
 		registry[id] = def
 	}
 }
